@@ -11,7 +11,8 @@ class C04(Check):
     prop = "C04"
     required_theorems = ["one_location", "key_tracks_next_check", "single_flight",
                          "single_flight_counterexample_with_passive_result", "concurrency_bound", "next_check_window",
-                         "forced_runs", "skip_iff", "progress", "sched_keeps_scheduled"]
+                         "forced_runs", "skip_iff", "progress", "sched_keeps_scheduled", "model_trace_meets_spec",
+                         "model_trace_counterexample_with_passive_result"]
     technique = ("Lean 4 proof (invariants by induction over arbitrary interleavings of a transition system whose actions are the "
                  "lock-protected sections of CheckerComponent, the single-flight flag of Checkable::ExecuteCheck and the attribute writes "
                  "that happen outside the checker's mutex; exact rational arithmetic for UpdateNextCheck); correspondence by trace "
@@ -50,10 +51,11 @@ class C04(Check):
         "writes of that flag (the attribute has no handler inside the checker)",
     ]
     assumptions = [
-        "real-time liveness is measured, not proved: lateness histogram of dispatches, and every idle entry that was due when the operations "
-        "stopped must have been taken 1.2 s (2.5 s thorough) later (ignored when the process itself was starved of CPU for > 0.2 s); the bound "
-        "allows for the scheduler's 0.5 s sleep when all slots are taken and the finishing helper's checkable is no longer pending; offered "
-        "load is kept below ~40 % of max_concurrent_checks",
+        "real-time liveness is measured, not proved: lateness histogram of dispatches; every idle entry that was due when the operations "
+        "stopped must have been taken 1.2 s (2.5 s thorough) later; and (F-C04a, fixed by 31ee201) after a helper finished for a checkable that "
+        "had left the pending set, an entry that was due all the time must be dispatched within 0.4 s, i.e. not only by the scheduler's 0.5 s "
+        "poll (clause liveness_no_wakeup_when_slot_freed). All three are ignored for a scenario whose process was itself starved of CPU for "
+        "> 0.2 s (canary thread); offered load is kept below ~40 % of max_concurrent_checks",
         "at most one harness operation per checkable is in flight at a time (operations on different checkables, helpers and the scheduler run concurrently)",
         "check commands deliver their result from inside the command function (or throw); results from other threads and commands that return without "
         "a result are not generated",
@@ -106,13 +108,6 @@ class C04(Check):
                     ctx = ctx[-8:]
         return ctx
 
-    def matches_known(self, entry, finding):
-        if entry.get("classifier") == "c04_no_wakeup_when_finished_check_left_pending":
-            # narrow: only the measured late dispatch that directly follows a helper section which found its checkable gone
-            # from the pending set (`fin … | 0 0` resp. `1 0` without having been pending) and therefore did not notify
-            return finding.kind == "spec" and finding.what == "spec:C04:liveness_no_wakeup_after_silent_finish"
-        return False
-
     def _reproduce(self, harness, driver, case, prefix, tries):
         ops = [l for l in case if l.startswith(("C ", "U "))]
         f = self.work("shrink.ops")
@@ -144,7 +139,7 @@ class C04(Check):
             case = self._context(save, int(kv["line"]), kv.get("cid", "0"))
             # arithmetic lines replay deterministically; scenarios are re-run with the same seed (threads: best effort)
             arith = case[0].split()[2:3] == ["arith"]
-            if spec and what == "liveness_no_wakeup_after_silent_finish":
+            if spec and what == "liveness_no_wakeup_when_slot_freed":
                 # context = the scheduler's and the helpers' sections just before the late dispatch (all checkables)
                 case = case[:1] + self._sections_before(save, int(kv["line"]))
             tries = 0 if (spec and what.startswith("liveness")) else (1 if arith else 2)
